@@ -12,7 +12,7 @@ Extraction "../build/ocaml/model.ml"
   (* Checkpointing *) td7_run cstate_init assess
   (* Tabular *) update_policy q_learning_step dql_update mc_update dyna_q_update dyna_step dyna_init zeros2 greedy planning
   (* Blocks *) two_hot_encoding two_hot_decoding two_hot_ce_row huber masked_mse_loss avg_l1_norm linear_schedule_k transition_steps make_two_hot_bins log_softmax
-  (* Returns *) reward_to_go compute_gae n_step_return a2c_batch ppo_gae ppo_flat_gae zip4
+  (* Returns *) reward_to_go compute_gae n_step_return a2c_batch ppo_gae ppo_flat_gae zip4 rollout_batch_loss rollout_loss
   (* Losses *) dual_ops dual_sg ddpg_loss td3_loss sac_loss td3_lap_loss td7_target td7_critic_loss mrq_loss dqn_loss ddqn_loss ddqn_per_loss sale_loss
   (* Actor *) pg_pseudo_loss reinforce_weights ac_weights a2c_normalise ppo_policy_loss ppo_value_loss ppo_loss dpg_loss sac_actor_loss sac_exploration_loss
   (* Heads *) softmax cat_logprob cat_entropy gauss_std gauss_logpdf gauss_entropy gauss_sample tanh_scaled half_range mid_range eps_greedy dqn_choice greedy_net
